@@ -16,13 +16,14 @@ import Hpbf.Driver3
 import Hpbf.Driver4
 import Hpbf.Driver5
 import Hpbf.Driver6
+import Hpbf.Driver8
 
 open Hpbf
 
 partial def loop (h : IO.FS.Stream) (out : IO.FS.Stream) : IO Unit := do
   let line ← h.getLine
   if line.isEmpty then return ()
-  let reply := Driver6.handle (line.trimAscii.toString)
+  let reply := Driver8.handle (line.trimAscii.toString)
   out.putStrLn reply
   out.flush
   loop h out
